@@ -62,6 +62,7 @@ def fn_cases(rng, tier):
                     "state": rng.choice([None, ""] + VALS), "kwargs": kw, "fragment": rng.choice(["", "frag"])})
     for _ in range(n):
         out.append({"op": "secret_post", "body": rng.choice(EXISTING), "client_id": rng.choice(VALS), "client_secret": rng.choice(VALS + [""])})
+        out.append({"op": "jwt_auth_fn", "body": rng.choice(EXISTING), "client_id": rng.choice(VALS), "method": rng.choice(["client_secret_jwt", "private_key_jwt"])})
         out.append({"op": "none", "body": rng.choice(EXISTING), "client_id": rng.choice(VALS), "method": rng.choice(["POST", "GET"])})
         out.append({"op": "basic", "client_id": rng.choice([v for v in ASCII_BASIC if ":" not in v]), "client_secret": rng.choice(ASCII_BASIC), "domain": True})
         out.append({"op": "basic", "client_id": rng.choice(VALS[:6] + ["caf\xe9", "a:b", "100%", "%41"]), "client_secret": rng.choice(VALS[:6] + ["\xff\xfe", "s%3Ax", ""]), "domain": False})
@@ -205,6 +206,13 @@ def impl(c):
         u = urlparse(r)
         return {"out": u.query.encode().hex(), "parsed": pairs(u.query.encode()), "_rest": [u.scheme, u.netloc, u.path, u.fragment],
                 "_server": _server_query(r)}
+    if op == "jwt_auth_fn":
+        from authlib.oauth2.rfc7523 import ClientSecretJWT, PrivateKeyJWT
+        url = "https://as.example/token"
+        meth = ClientSecretJWT(url) if c["method"] == "client_secret_jwt" else PrivateKeyJWT(url)
+        secret = "s" * 40 if c["method"] == "client_secret_jwt" else _rsa()[0]
+        _, h, body = ClientAuth(c["client_id"], secret, meth).prepare("POST", url, {}, c["body"])
+        return {"parsed": pairs(body.encode())}
     if op == "secret_post":
         _, h, body = ClientAuth(c["client_id"], c["client_secret"], "client_secret_post").prepare("POST", "https://as.example/token", {}, c["body"])
         return {"out": body.encode().hex(), "parsed": pairs(body.encode())}
@@ -568,6 +576,13 @@ def oracle(c, out):
             bad("the library's server half (OAuth2Request) reads different parameters from the authorization URL than the client put there", kind="server-parse")
         if out["_rest"] != ["https", "as.example", "/authorize", c["fragment"]]:
             bad("another URL component was altered", kind="component")
+    elif op == "jwt_auth_fn":
+        exist = pairs(c["body"].encode())
+        got = out["parsed"]
+        names = [bytes.fromhex(k).decode() for k, _ in got[len(exist):]]
+        if got[:len(exist)] != exist or names != ["client_assertion_type", "client_assertion"]:
+            bad(f"{c['method']}: the body after adding the assertion does not keep the existing parameters in place followed by the two assertion parameters "
+                f"(existing {c['body']!r}, names now {[bytes.fromhex(k).decode('utf-8', 'replace') for k, _ in got]})", kind="roundtrip")
     elif op == "secret_post":
         if out["parsed"] != pairs(c["body"].encode()) + [[hx("client_id"), hx(c["client_id"])], [hx("client_secret"), hx(c["client_secret"])]]:
             bad("client_secret_post body does not round-trip", kind="roundtrip")
